@@ -12,6 +12,7 @@ from ..common import Result
 from ..describe import EPOCH, MS
 
 D4 = "D4-record-timestamps-floored-to-seconds-on-read"
+D16 = "D16-truncated-batch-with-colliding-crc-accepted"
 BATCH_FIELDS = ("base_offset", "partition_leader_epoch", "attributes", "last_offset_delta", "base_timestamp", "max_timestamp",
                 "producer_id", "producer_epoch", "base_sequence")
 
@@ -386,8 +387,57 @@ def _must_fail(res: Result, data: bytes, kind: str, detail: str, outcomes: dict,
         outcomes[f"{kind}:{name}"] = outcomes.get(f"{kind}:{name}", 0) + 1
         return
     outcomes[f"{kind}:RETURNED"] = outcomes.get(f"{kind}:RETURNED", 0) + 1
+    if kind.startswith("truncation") and len(data) >= 21 and recref.crc32c(data[21:]) == int.from_bytes(data[17:21], "big"):
+        # D16: the bytes that survive the cut happen to have the recorded CRC-32C (only reachable with a crafted tail, see
+        # _colliding_truncation): the reader never compares the number of bytes it got with batch_length
+        res.count("truncations_with_colliding_crc_accepted")
+        res.known_or_violation(D16, "damage-accepted:truncation:colliding-crc", f"read_batch returned a batch for a truncated input whose surviving bytes have the recorded CRC ({detail})",
+                               dict(origin, damaged=data, kind=kind, detail=detail, returned=repr(out)[:1500]))
+        return
     res.violation(f"damage-accepted:{kind}:{detail.split('@')[0]}", f"read_batch returned a batch for damaged input ({kind}: {detail})",
                   dict(origin, damaged=data, kind=kind, detail=detail, returned=repr(out)[:1500]))
+
+
+def _crc_state(data: bytes, c: int = 0xFFFFFFFF) -> int:
+    t = recref._TABLE  # noqa: SLF001
+    for b in data:
+        c = t[(c ^ b) & 0xFF] ^ (c >> 8)
+    return c
+
+
+def _colliding_truncation(rng) -> tuple[bytes, int, dict]:  # noqa: ANN001
+    """A well-formed batch and a cut length k such that the checksummed bytes that survive removing the last k bytes have the same
+    CRC-32C as the whole: the last record ends in a header value ``stem + T + C`` where the four bytes T are solved for (the CRC
+    register is affine over GF(2) in T).  A reader that trusts the checksum alone cannot see this truncation."""
+    b, _ = gen_batch(rng, False, 4)
+    k = rng.choice((4, 4, 5, 8, 17, 64, 300))
+    stem, tail = rng.randbytes(rng.randint(0, 20)), rng.randbytes(k - 4)
+    rec = b["records"][-1]
+    rec["headers"] = [*rec["headers"], (rng.choice((b"h", b"", "ключ".encode())), stem + bytes(4) + tail)]
+    raw0 = recref.encode_batch(b)
+    assert raw0.endswith(bytes(4) + tail)
+    s0 = _crc_state(raw0[21:len(raw0) - k])
+
+    def h(t: bytes) -> int:
+        return _crc_state(tail, _crc_state(t, s0))
+
+    h0 = h(bytes(4))
+    rows = [(h((1 << j).to_bytes(4, "big")) ^ h0, 1 << j) for j in range(32)]  # (image, combination)
+    target, combo = s0 ^ h0, 0
+    for bit in range(31, -1, -1):
+        piv = next((r for r in rows if r[0] >> bit & 1), None)
+        if piv is None:
+            continue
+        rows.remove(piv)
+        rows = [(r[0] ^ piv[0], r[1] ^ piv[1]) if r[0] >> bit & 1 else r for r in rows]
+        if target >> bit & 1:
+            target ^= piv[0]
+            combo ^= piv[1]
+    assert target == 0, "the four free bytes always reach every register value"
+    rec["headers"][-1] = (rec["headers"][-1][0], stem + combo.to_bytes(4, "big") + tail)
+    raw = recref.encode_batch(b)
+    assert recref.crc32c(raw[21:len(raw) - k]) == int.from_bytes(raw[17:21], "big") == recref.crc32c(raw[21:])
+    return raw, k, b
 
 
 def _region(off: int, n_total: int) -> str:
@@ -468,6 +518,15 @@ def c18_worker(res: Result, i: int, n: int) -> None:
             _damage(res, rng, raw, outcomes, {"origin": label, "bytes": raw}, 256 if not thorough else 768)
         if res.counters["batches"] % 37 == 1:
             res.sample({"origin": label, "bytes": raw, "records": len(b["records"])})
+    # truncations that a checksum cannot see: the surviving bytes are crafted to have the recorded CRC
+    for k in range(i, 64 if not thorough else 4000, n):
+        rng = common.rng_for("C18", "colliding", k)
+        raw, cut, b = _colliding_truncation(rng)
+        res.count("colliding_truncation_batches")
+        if not _identity(res, raw, b, f"colliding-crc batch #{k}"):
+            continue
+        _must_fail(res, raw[:len(raw) - cut], "truncation-colliding-crc", f"cut@{len(raw) - cut} of {len(raw)}", outcomes, {"origin": f"colliding-crc batch #{k}", "bytes": raw})
+        res.count("truncations")
     # batches that are not at the start of the stream: identity at a non-zero offset, and damage to a *later* batch of a stream
     for k in range(i, 48 if not thorough else 1500, n):
         rng = common.rng_for("C18", "offset", k)
